@@ -222,6 +222,53 @@ def mutators():
             ("invalid aggregate published", invalid_published)]
 
 
+def vi_conflicts(seed, pool, k):
+    """Attestations only: the aggregator takes the output TEMPLATE from the first partial that carries a validator index
+    (the local validator client's copy), the aggregated signature from all of them.  Directed lists in which the partial
+    with the validator index carries / signs the OTHER content while its share index is repeated by a partial over the
+    agreed content (last entry of an index wins), with the first partial of the list lacking the validator index: whatever
+    is published must verify for its OWN content."""
+    r = vlib.rng(seed, "c09vi")
+    combos = {}
+    for c in pool:
+        st = c[0]
+        if st["typ"] == "attester":
+            combos[(st["typ"], st["ver"], st["bucket"])] = (st["domain"], st["esrc"])
+    keys = sorted(combos)
+    out = []
+    for _ in range(k if keys else 0):
+        typ, ver, bucket = r.choice(keys)
+        domain, esrc = combos[(typ, ver, bucket)]
+        n, t = r.choice(NT_RANDOM)
+
+        def P(i, content="A", over=None, vi=False):
+            return {"idx": i, "by": i, "content": content, "over": over or content, "dom": domain, "ep": "own", "form": "ok", "vi": vi}
+        ids = r.sample(range(1, n + 1), r.randint(t, n))
+        odd = r.choice(ids[1:]) if len(ids) > 1 else ids[0]
+        lst = [P(i) for i in ids]
+        shape = r.choice(["vi_other_then_agreed", "vi_other_then_agreed", "agreed_then_vi_other", "vi_hybrid", "two_vi"])
+        k_odd = [j for j, p in enumerate(lst) if p["idx"] == odd][0]
+        if shape == "vi_other_then_agreed":       # [.., odd/B+vi, .., odd/A, ..]: the later entry of the index is the agreed one
+            lst[k_odd] = P(odd, "B", vi=True)
+            lst.insert(r.randint(k_odd + 1, len(lst)), P(odd))
+        elif shape == "agreed_then_vi_other":     # the later entry of the index is the other content
+            lst.insert(r.randint(k_odd + 1, len(lst)), P(odd, "B", vi=True))
+        elif shape == "vi_hybrid":                # carries B, signs A (valid for the aggregate, wrong template)
+            lst[k_odd] = P(odd, "B", over="A", vi=True)
+        else:                                     # two copies with validator index, different contents
+            lst[k_odd] = P(odd, "B", vi=True)
+            lst.insert(r.randint(k_odd + 1, len(lst)), P(odd, vi=True))
+        if lst[0]["vi"] and len(lst) > 1:         # the first partial is a peer's (no validator index)
+            lst[0], lst[1] = lst[1], lst[0]
+        vals = [lst]
+        if r.random() < 0.3:
+            vals.append([P(i) for i in r.sample(range(1, n + 1), r.randint(t, n))])
+            r.shuffle(vals)
+        out.append([{"ev": "Call", "typ": typ, "ver": ver, "bucket": bucket, "T": t, "N": n, "domain": domain, "esrc": esrc,
+                     "vals": vals}])
+    return out
+
+
 OTHER_BUCKET = {"deneb": "electra", "electra": "fulu", "fulu": "deneb"}     # harness/c09 otherBucket: where ep="other" signs
 
 
@@ -329,6 +376,7 @@ def run(tier, seed):
         vlib.conformance(o, FAMILY, "SigAggTrace", trace_cfg, "c09", extra, tag="enum_nt", **kw)
     vlib.conformance(o, FAMILY, "SigAggTrace", trace_cfg, "c09", rnd, tag="random", **kw)
     vlib.conformance(o, FAMILY, "SigAggTrace", trace_cfg, "c09", sequences(seed, cases, 3000 if thorough else 400), tag="seq", **kw)
+    vlib.conformance(o, FAMILY, "SigAggTrace", trace_cfg, "c09", vi_conflicts(seed, cases, 1500 if thorough else 250), tag="vi", **kw)
     # binding negative controls on recorded traces
     tr = vlib.split_traces(vlib.read_ndjson(vlib.workdir(PID) + "/trace_enum.ndjson"))
     ms = mutators()
